@@ -42,6 +42,40 @@ func BaseType(t Type) Type {
 	return t
 }
 
+// numberAsFloat returns a numeric value of any kind as a float64.
+func numberAsFloat(v interface{}) (f float64, ok bool) {
+	ok = true
+	switch tv := v.(type) {
+	case float32:
+		f = float64(tv)
+	case float64:
+		f = tv
+	case int:
+		f = float64(tv)
+	case int8:
+		f = float64(tv)
+	case int16:
+		f = float64(tv)
+	case int32:
+		f = float64(tv)
+	case int64:
+		f = float64(tv)
+	case uint:
+		f = float64(tv)
+	case uint8:
+		f = float64(tv)
+	case uint16:
+		f = float64(tv)
+	case uint32:
+		f = float64(tv)
+	case uint64:
+		f = float64(tv)
+	default:
+		ok = false
+	}
+	return
+}
+
 // FormErrorsResult forms an errors array suitable for returning from GraphQL
 // request. The result will include path and location when possible.
 func FormErrorsResult(err error) []interface{} {
